@@ -9,8 +9,9 @@
    (content, mode) — this is what DiffTree computes when no path of one side is
    a directory prefix of a path of the other (guard [df_free], checked by the
    correspondence before a case is given to the model).
-   The code is modelled AS IT IS, including the order "create branch, move
-   HEAD, then Reset" of Checkout.  Executable definitions only. *)
+   The code is modelled AS IT IS (Checkout in the order of the repaired code:
+   every refusal is decided before the branch is created and HEAD is moved).
+   Executable definitions only. *)
 From Coq Require Import List NArith ZArith Bool String.
 From GoGit Require Import Base.Out.
 Import ListNotations.
@@ -330,18 +331,22 @@ Definition co_validate (o : copts) : option err :=
 Definition co_branch_name (o : copts) : bytes :=
   match co_branch o with [] => master | b => b end.
 
-(* createBranch: refuses an existing name; a zero opts.Hash becomes HEAD's commit *)
+(* createBranch: refuses an existing name; a zero opts.Hash becomes HEAD's
+   commit; the target must be something that can be checked out (fix: checked
+   BEFORE the reference is stored) *)
 Definition create_branch (o : copts) (br : bytes) (s : state) : option err * (Z * state) :=
   if co_create o then
     match lookup br (refs s) with
     | Some _ => (Some EBranchExists, (co_hash o, s))
     | None =>
-      if (co_hash o =? -1)%Z then
-        match head_commit s with
-        | None => (Some ERefNotFound, (co_hash o, s))
-        | Some h => (None, (h, set_refs s (insert br h (refs s))))
+      match (if (co_hash o =? -1)%Z then head_commit s else Some (co_hash o)) with
+      | None => (Some ERefNotFound, (co_hash o, s))
+      | Some h =>
+        match tree_of s h with
+        | None => (Some EObjectNotFound, (co_hash o, s))
+        | Some _ => (None, (h, set_refs s (insert br h (refs s))))
         end
-      else (None, (co_hash o, set_refs s (insert br (co_hash o) (refs s))))
+      end
     end
   else (None, (co_hash o, s)).
 
@@ -363,25 +368,28 @@ Definition move_head (o : copts) (br : bytes) (hash c : Z) (s : state) : option 
        | Some _ => (None, set_head s (if is_branch br then HSym br else HDet c))
        end.
 
-(* Checkout up to (excluding) its final Reset, in the order of the code:
-   Validate, createBranch, resolve the commit, capture the from-tree (Force
-   only), move HEAD.  Returns the arguments of the Reset and the state so far. *)
+(* Checkout up to (excluding) its final Reset, in the order of the (repaired)
+   code: Validate; for a non-forced checkout the unstaged-changes check; for a
+   forced one the from-tree; only then createBranch, the commit lookup and the
+   HEAD update.  Returns the arguments of the Reset and the state so far. *)
 Definition checkout_pre (o : copts) (s : state) : option err * ((Z * rmode * option fmap) * state) :=
   let dflt := ((-1)%Z, Mixed, None) in
   match co_validate o with
   | Some e => (Some e, (dflt, s))
   | None =>
     let br := co_branch_name o in
-    match create_branch o br s with
-    | (Some e, (_, s1)) => (Some e, (dflt, s1))
-    | (None, (hash, s1)) =>
-      match resolve_commit br hash s1 with
-      | (Some e, _) => (Some e, (dflt, s1))
-      | (None, c) =>
-        let m := co_mode o in
-        match (match m with Hard => head_tree s1 | _ => HTNone end) with
-        | HTErr => (Some EObjectNotFound, (dflt, s1))
-        | from =>
+    let m := co_mode o in
+    if match m with Merge => unstaged s | _ => false end then (Some EUnstaged, (dflt, s))
+    else
+    match (match m with Hard => head_tree s | _ => HTNone end) with
+    | HTErr => (Some EObjectNotFound, (dflt, s))
+    | from =>
+      match create_branch o br s with
+      | (Some e, (_, s1)) => (Some e, (dflt, s1))
+      | (None, (hash, s1)) =>
+        match resolve_commit br hash s1 with
+        | (Some e, _) => (Some e, (dflt, s1))
+        | (None, c) =>
           match move_head o br hash c s1 with
           | (Some e, s2) => (Some e, (dflt, s2))
           | (None, s2) => (None, ((c, m, match from with HTTree f => Some f | _ => None end), s2))
